@@ -349,7 +349,21 @@ def oracle_clean_error(c):
     """C10: under an injected fault the operation ends with an error or a tolerated result; no panic,
     nothing leaked, nothing changed outside the root, no success for work not done."""
     if c.res[:1] == ["panic"]:
-        return "the operation panicked under an injected fault"
+        try:
+            text = unhex(c.res[1]).decode("latin1")
+        except Exception:
+            text = ""
+        if "call budget" in text:
+            return "the operation did not terminate: " + text
+        return "the operation panicked under an injected fault: " + text[:200]
+    f0 = c.extra.get("fault", [[]])[0]
+    if f0[:1] == ["eagain_first"] and c.cfg.get("backend") == "k":
+        # the first lookup of the operation used up its 16 tries: that is a safety violation, never a partial result
+        first_is_lookup = any(ev[0][0] == "openat2" for ev in c.events[:1])
+        n_eagain = sum(1 for ev in c.events if ev[0][0] == "openat2" and ev[1][:2] == ["err", "11"])
+        if n_eagain >= 16 and c.res[:2] != ["err", "SafetyViolation"]:
+            return ("openat2 answered EAGAIN 16 times in a row and the operation did not report a safety violation: "
+                    + " ".join(c.res[:4]))
     if c.fdt and c.fdt != ["same"]:
         return "descriptor table changed across the call: " + " ".join(c.fdt)
     for t in c.extra.get("outside", []):
